@@ -217,6 +217,21 @@ def judge_all(acc, case, rng):
     from pv import canon
     label, idx = canon.sym_label_factory()
     findings = []
+    # the identifier that prefixes constraint names and labels the tables identifies ONE function (the name the user gave, a
+    # default one otherwise - which default is the library's business): two functions share one only if the user named them alike
+    given = getattr(case.machine, "user_function_names", {})
+    by_id = {}
+    for f in Function.list_of_functions:
+        if not f.get_is_leaf() or type(f).__name__ == "Function" or id(f) not in given:
+            continue
+        acc.count("function_identifiers_checked")
+        fid_ = f.get_name() or "Function_%s" % f.counter
+        by_id.setdefault(fid_, []).append(f)
+    for fid_, fs_ in by_id.items():
+        if len(fs_) > 1 and len({given[id(f)] for f in fs_}) > 1 or (len(fs_) > 1 and all(given[id(f)] is None for f in fs_)):
+            findings.append({"key": "two_functions_share_one_identifier", "grade": "violated",
+                             "what": "%d functions (%s) are all identified as %r in constraint names and dual tables"
+                                     % (len(fs_), ", ".join(type(f).__name__ for f in fs_), fid_)})
     for f in Function.list_of_functions:
         if not f.get_is_leaf() or type(f).__name__ == "Function":
             continue
